@@ -301,6 +301,11 @@ pub trait Prop: Sync + Send + 'static {
     fn extra_evidence(&self, _tier: Tier) -> Value {
         json!({})
     }
+    /// Optional extra campaign run after the generated part (e.g. a libFuzzer run in the thorough
+    /// tier). Returns extra evidence keys and possibly a confirmed failing case.
+    fn post(&self, _tier: Tier, _seed: u64) -> (Value, Option<(Self::Case, Failure)>) {
+        (json!({}), None)
+    }
 }
 
 #[derive(Serialize, Deserialize)]
@@ -499,6 +504,39 @@ pub fn run_prop<P: Prop>(p: P, opts: RunOpts) -> i32 {
     let mut total = Stats::new(opts.seed);
     let mut failures: Vec<(P::Case, Failure)> = Vec::new();
     let mut infra: Vec<String> = Vec::new();
+    // regression tier: saved cases (shrunk failures of earlier defects and of seeded changes) are re-evaluated first
+    let mut regress_replayed = 0u64;
+    let mut regress_failure: Option<(P::Case, Failure, PathBuf)> = None;
+    {
+        let dir = verif_dir().join("regressions").join(p.id());
+        let mut files: Vec<PathBuf> = std::fs::read_dir(&dir).map(|d| d.flatten().map(|e| e.path()).collect()).unwrap_or_default();
+        files.sort();
+        for f in files {
+            if f.extension().map_or(true, |e| e != "json") {
+                continue;
+            }
+            let Ok(text) = std::fs::read_to_string(&f) else { continue };
+            let Ok(rf) = serde_json::from_str::<ReplayFile>(&text) else {
+                infra.push(format!("regression file {} does not parse", f.display()));
+                continue;
+            };
+            let Ok(case) = serde_json::from_value::<P::Case>(rf.case) else {
+                infra.push(format!("regression file {} does not decode as a {} case", f.display(), p.id()));
+                continue;
+            };
+            regress_replayed += 1;
+            let mut st = Stats::new(0);
+            let r = match catch(|| p.check(&case, &mut st)) {
+                Ok(r) => r,
+                Err(panic) => Err(Failure::new(format!("harness-or-library panic: {}", panic), "no panic", panic)),
+            };
+            if let Err(fl) = r {
+                if known_match(&known, &fl).is_none() && regress_failure.is_none() {
+                    regress_failure = Some((case, fl, f.clone()));
+                }
+            }
+        }
+    }
     for h in handles {
         match h.join() {
             Ok(r) => {
@@ -518,17 +556,32 @@ pub fn run_prop<P: Prop>(p: P, opts: RunOpts) -> i32 {
         let _ = m.join();
     }
 
+    // optional extra campaign (fuzzing in the thorough tier)
+    let (post_evidence, post_failure) = p.post(opts.tier, opts.seed);
+    if let Some((c, f)) = post_failure {
+        if let Some(k) = known_match(&known, &f) {
+            *total.known_hits.entry(k.signature.clone()).or_insert(0) += 1;
+        } else {
+            failures.push((c, f));
+        }
+    }
     // pick the smallest failure (by serialized length, then lexicographically) for the report
     failures.sort_by_key(|(c, _)| {
         let s = serde_json::to_string(c).unwrap();
         (s.len(), s)
     });
-    let violation = failures.first().cloned();
+    let mut violation = failures.first().cloned();
     let wall = t0.elapsed().as_secs_f64();
 
     let mut replay_path = None;
     if let Some((case, f)) = &violation {
         replay_path = Some(write_replay(&*p, case, Some(f), &opts, "shrunk failing case"));
+    }
+    if let Some((case, f, path)) = regress_failure {
+        // a saved regression case fails again: report it (its file is the replay)
+        failures.insert(0, (case.clone(), f.clone()));
+        violation = Some((case, f));
+        replay_path = Some(path);
     }
 
     // evidence
@@ -550,7 +603,13 @@ pub fn run_prop<P: Prop>(p: P, opts: RunOpts) -> i32 {
         "shards": nshards,
         "exhaustive": p.exhaustive(opts.tier),
         "known_finding_hits": total.known_hits,
+        "regression_cases_replayed": regress_replayed,
     });
+    if let (Some(o), Value::Object(extra)) = (coverage.as_object_mut(), post_evidence) {
+        for (k, v) in extra {
+            o.insert(k, v);
+        }
+    }
     if let (Some(o), Value::Object(extra)) = (coverage.as_object_mut(), p.extra_evidence(opts.tier)) {
         for (k, v) in extra {
             o.insert(k, v);
